@@ -48,7 +48,7 @@ func (fr *Frame) floatConst(s string) Term {
 // strLit returns the constant for a string literal, with its length and characters axiomatised.
 func (s *Session) strLit(v string) Term {
 	if v == "" {
-		return Term{"str.empty", SStr}
+		return Term{"s_empty", SStr}
 	}
 	if n, ok := s.strLits[v]; ok {
 		return Term{n, SStr}
@@ -57,10 +57,10 @@ func (s *Session) strLit(v string) Term {
 	s.strLits[v] = n
 	s.pre.Add("const:"+n, fmt.Sprintf("(declare-const %s Str) ; %q", n, truncate(v, 60)))
 	var parts []string
-	parts = append(parts, fmt.Sprintf("(= (str.len %s) %d)", n, len(v)))
+	parts = append(parts, fmt.Sprintf("(= (s_len %s) %d)", n, len(v)))
 	if len(v) <= 128 {
 		for i := 0; i < len(v); i++ {
-			parts = append(parts, fmt.Sprintf("(= (str.at %s %d) %d)", n, i, v[i]))
+			parts = append(parts, fmt.Sprintf("(= (s_at %s %d) %d)", n, i, v[i]))
 		}
 	}
 	s.pre.Add("ax:"+n, "(assert (and "+strings.Join(parts, " ")+"))")
@@ -287,6 +287,7 @@ func (fr *Frame) execInstr(ins ssa.Instruction) {
 		case *types.Basic: // string
 			fr.safe("index", tAnd(tLe(tInt(0), idx), tLt(idx, strLen(x))), ins, "string index in range")
 			fr.setVal(ins, strAt(x, idx))
+			fr.vc.assume(inRange(types.Typ[types.Uint8], fr.vals[ins]))
 		default:
 			panic("Index on " + ins.X.Type().String())
 		}
@@ -307,6 +308,7 @@ func (fr *Frame) execInstr(ins ssa.Instruction) {
 		// string
 		fr.safe("index", tAnd(tLe(tInt(0), idx), tLt(idx, strLen(x))), ins, "string index in range")
 		fr.setVal(ins, strAt(x, idx))
+		fr.vc.assume(inRange(types.Typ[types.Uint8], fr.vals[ins]))
 	case *ssa.UnOp:
 		fr.execUnOp(ins)
 	case *ssa.BinOp:
@@ -524,9 +526,9 @@ func (fr *Frame) assumeZeroAgg(e types.Type, ref Term) {
 	}
 }
 
-func strLen(s Term) Term { return Term{app("str.len", s.S), SInt} }
+func strLen(s Term) Term { return Term{app("s_len", s.S), SInt} }
 func strAt(s, i Term) Term {
-	return Term{app("str.at", s.S, i.S), SInt}
+	return Term{app("s_at", s.S, i.S), SInt}
 }
 
 // objBase returns the reference of the aggregate object that pointer value p points to.
@@ -637,22 +639,22 @@ func (fr *Frame) binop(op token.Token, x, y Term, xt, yt, rt types.Type, ins ssa
 		return tNot(fr.equal(x, y, xt))
 	case token.LSS:
 		if x.Sort == SStr {
-			return fr.uf("str.lt", SBool, x, y)
+			return fr.uf("s_lt", SBool, x, y)
 		}
 		return tLt(x, y)
 	case token.LEQ:
 		if x.Sort == SStr {
-			return tOr(fr.uf("str.lt", SBool, x, y), tEq(x, y))
+			return tOr(fr.uf("s_lt", SBool, x, y), tEq(x, y))
 		}
 		return tLe(x, y)
 	case token.GTR:
 		if x.Sort == SStr {
-			return fr.uf("str.lt", SBool, y, x)
+			return fr.uf("s_lt", SBool, y, x)
 		}
 		return tLt(y, x)
 	case token.GEQ:
 		if x.Sort == SStr {
-			return tOr(fr.uf("str.lt", SBool, y, x), tEq(x, y))
+			return tOr(fr.uf("s_lt", SBool, y, x), tEq(x, y))
 		}
 		return tLe(y, x)
 	case token.LAND:
@@ -767,17 +769,17 @@ func (fr *Frame) equal(x, y Term, t types.Type) Term {
 
 func (fr *Frame) strConcat(x, y Term) Term {
 	te := fr.te()
-	te.pre.Add("fn:str.cat", "(declare-fun str.cat (Str Str) Str)")
-	te.pre.Add("ax:str.cat", "(assert (forall ((a Str) (b Str)) (! (= (str.len (str.cat a b)) (+ (str.len a) (str.len b))) :pattern ((str.cat a b)))))")
-	te.pre.Add("ax:str.cat#2", "(assert (forall ((a Str) (b Str) (i Int)) (! (= (str.at (str.cat a b) i) (ite (< i (str.len a)) (str.at a i) (str.at b (- i (str.len a))))) :pattern ((str.at (str.cat a b) i)))))")
-	return Term{app("str.cat", x.S, y.S), SStr}
+	te.pre.Add("fn:s_cat", "(declare-fun s_cat (Str Str) Str)")
+	te.pre.Add("ax:s_cat", "(assert (forall ((a Str) (b Str)) (! (= (s_len (s_cat a b)) (+ (s_len a) (s_len b))) :pattern ((s_cat a b)))))")
+	te.pre.Add("ax:s_cat#2", "(assert (forall ((a Str) (b Str) (i Int)) (! (= (s_at (s_cat a b) i) (ite (< i (s_len a)) (s_at a i) (s_at b (- i (s_len a))))) :pattern ((s_at (s_cat a b) i)))))")
+	return Term{app("s_cat", x.S, y.S), SStr}
 }
 
 func (te *TypeEnv) strSub() {
-	te.pre.Add("fn:str.sub", "(declare-fun str.sub (Str Int Int) Str)")
-	te.pre.Add("ax:str.sub", "(assert (forall ((s Str) (lo Int) (hi Int)) (! (=> (and (<= 0 lo) (<= lo hi) (<= hi (str.len s))) (= (str.len (str.sub s lo hi)) (- hi lo))) :pattern ((str.sub s lo hi)))))")
-	te.pre.Add("ax:str.sub#2", "(assert (forall ((s Str) (lo Int) (hi Int) (i Int)) (! (=> (and (<= 0 lo) (<= lo hi) (<= hi (str.len s)) (<= 0 i) (< i (- hi lo))) (= (str.at (str.sub s lo hi) i) (str.at s (+ lo i)))) :pattern ((str.at (str.sub s lo hi) i)))))")
-	te.pre.Add("ax:str.sub#3", "(assert (forall ((s Str)) (! (= (str.sub s 0 (str.len s)) s) :pattern ((str.sub s 0 (str.len s))))))")
+	te.pre.Add("fn:s_sub", "(declare-fun s_sub (Str Int Int) Str)")
+	te.pre.Add("ax:s_sub", "(assert (forall ((s Str) (lo Int) (hi Int)) (! (=> (and (<= 0 lo) (<= lo hi) (<= hi (s_len s))) (= (s_len (s_sub s lo hi)) (- hi lo))) :pattern ((s_sub s lo hi)))))")
+	te.pre.Add("ax:s_sub#2", "(assert (forall ((s Str) (lo Int) (hi Int) (i Int)) (! (=> (and (<= 0 lo) (<= lo hi) (<= hi (s_len s)) (<= 0 i) (< i (- hi lo))) (= (s_at (s_sub s lo hi) i) (s_at s (+ lo i)))) :pattern ((s_at (s_sub s lo hi) i)))))")
+	te.pre.Add("ax:s_sub#3", "(assert (forall ((s Str)) (! (= (s_sub s 0 (s_len s)) s) :pattern ((s_sub s 0 (s_len s))))))")
 }
 
 func (fr *Frame) execSlice(ins *ssa.Slice) {
@@ -815,7 +817,7 @@ func (fr *Frame) execSlice(ins *ssa.Slice) {
 		}
 		fr.safe("slice-bounds", tAnd(tLe(tInt(0), lo), tLe(lo, hi), tLe(hi, strLen(s))), ins, "string slice bounds in range")
 		te.strSub()
-		fr.setVal(ins, Term{app("str.sub", s.S, lo.S, hi.S), SStr})
+		fr.setVal(ins, Term{app("s_sub", s.S, lo.S, hi.S), SStr})
 	case *types.Pointer:
 		arr := xt.Elem().Underlying().(*types.Array)
 		base := fr.objBase(ins.X)
@@ -865,13 +867,13 @@ func (fr *Frame) execConvert(ins *ssa.Convert) {
 			hs := arraySort(SInt, arraySort(SInt, SInt))
 			h := fr.cur.Get(hn, hs)
 			inner := fr.vc.fresh("bytesof", arraySort(SInt, SInt))
-			fr.vc.assume(Term{fmt.Sprintf("(forall ((i Int)) (! (=> (and (<= 0 i) (< i (str.len %s))) (= (select %s i) (str.at %s i))) :pattern ((select %s i))))", x.S, inner.S, x.S, inner.S), SBool})
+			fr.vc.assume(Term{fmt.Sprintf("(forall ((i Int)) (! (=> (and (<= 0 i) (< i (s_len %s))) (= (select %s i) (s_at %s i))) :pattern ((select %s i))))", x.S, inner.S, x.S, inner.S), SBool})
 			fr.cur.Set(hn, fr.vc.define(hn+"!s", tStore(h, ref, inner)))
 			fr.setVal(ins, mkSlice(ref, tInt(0), strLen(x), strLen(x)))
 			return
 		}
 		n := fr.vc.fresh("runeslen", SInt)
-		fr.vc.assume(Term{fmt.Sprintf("(and (<= 0 %s) (<= %s (str.len %s)))", n.S, n.S, x.S), SBool})
+		fr.vc.assume(Term{fmt.Sprintf("(and (<= 0 %s) (<= %s (s_len %s)))", n.S, n.S, x.S), SBool})
 		fr.zeroElems(e, ref)
 		fr.cur.Havoc(te.elemHeap(e), arraySort(SInt, arraySort(SInt, te.SortOf(e))))
 		fr.vc.note("[]rune(string) conversion approximated")
@@ -885,7 +887,7 @@ func (fr *Frame) execConvert(ins *ssa.Convert) {
 		fr.vc.note("string([]rune) conversion approximated")
 		fr.vals[ins] = fr.havocVal(ins.Type(), fr.vname(ins))
 	case fs == SInt && ts == SStr:
-		fr.vals[ins] = fr.uf("str.ofrune", SStr, x)
+		fr.vals[ins] = fr.uf("s_ofrune", SStr, x)
 	case fs == SFloat || ts == SFloat:
 		if fs == SFloat && ts == SFloat {
 			fr.vals[ins] = x
@@ -909,11 +911,11 @@ func (fr *Frame) execConvert(ins *ssa.Convert) {
 // strOfBytes returns the string with the contents of byte slice s in state st.
 func (fr *Frame) strOfBytes(st *State, s Term) Term {
 	te := fr.te()
-	te.pre.Add("fn:str.ofbytes", "(declare-fun str.ofbytes ((Array Int Int) Int Int) Str)")
-	te.pre.Add("ax:str.ofbytes", "(assert (forall ((a (Array Int Int)) (o Int) (n Int)) (! (=> (>= n 0) (= (str.len (str.ofbytes a o n)) n)) :pattern ((str.ofbytes a o n)))))")
-	te.pre.Add("ax:str.ofbytes#2", "(assert (forall ((a (Array Int Int)) (o Int) (n Int) (i Int)) (! (=> (and (<= 0 i) (< i n)) (= (str.at (str.ofbytes a o n) i) (select a (+ o i)))) :pattern ((str.at (str.ofbytes a o n) i)))))")
+	te.pre.Add("fn:s_ofbytes", "(declare-fun s_ofbytes ((Array Int Int) Int Int) Str)")
+	te.pre.Add("ax:s_ofbytes", "(assert (forall ((a (Array Int Int)) (o Int) (n Int)) (! (=> (>= n 0) (= (s_len (s_ofbytes a o n)) n)) :pattern ((s_ofbytes a o n)))))")
+	te.pre.Add("ax:s_ofbytes#2", "(assert (forall ((a (Array Int Int)) (o Int) (n Int) (i Int)) (! (=> (and (<= 0 i) (< i n)) (= (s_at (s_ofbytes a o n) i) (select a (+ o i)))) :pattern ((s_at (s_ofbytes a o n) i)))))")
 	h := st.Get("A_Int", arraySort(SInt, arraySort(SInt, SInt)))
-	return Term{app("str.ofbytes", tSelect(h, sArr(s)).S, sOff(s).S, sLen(s).S), SStr}
+	return Term{app("s_ofbytes", tSelect(h, sArr(s)).S, sOff(s).S, sLen(s).S), SStr}
 }
 
 func (fr *Frame) execTypeAssert(ins *ssa.TypeAssert) {
